@@ -166,8 +166,14 @@ def cluster_part(res):
         cfgs.append({"members": 3, "replicas": 3, "partitions": 7, "table": 512, "evict_workers": 1})
     for cfg in cfgs:
         scs = []
-        for i in range(2 if res.tier == "quick" else 12):
-            scs.append(cluster_scan_scenario(vlib.rng_for(res.seed, PID, "cluster", sid), sid, cfg["members"]))
+        slow = cfg["replicas"] >= 3       # every iteration pauses ~1 s per partition there (re-fetch of the routing table)
+        for i in range(2 if res.tier == "quick" else (3 if slow else 12)):
+            sc = cluster_scan_scenario(vlib.rng_for(res.seed, PID, "cluster", sid), sid, cfg["members"])
+            if slow:
+                scans = [o for o in sc["ops"] if o["op"] == "iterscan"]
+                keep = set(id(o) for o in scans[::5])
+                sc["ops"] = [o for o in sc["ops"] if o["op"] != "iterscan" or id(o) in keep]
+            scs.append(sc)
             sid += 1
         groups.append((cfg, scs))
     results = dmaplib.run_groups(groups)
